@@ -160,7 +160,29 @@ fn is_label(e: &uciproc::Event, l: &str) -> bool {
     e.stream == Stream::Err && e.line.trim() == format!("verif-sched {l}")
 }
 
+/// A timeout verdict reached while the engine process was being kept from running (see
+/// `Engine::starved`) says nothing about the engine: the schedule is run again (twice at most);
+/// if the machine stays that loaded the case is reported as inconclusive (exit 2).
 pub fn run_sched(ctx: &Ctx, s: &Sched, rep: &mut Report) -> Result<(), Violation> {
+    let mut starved = 0;
+    loop {
+        let mut scratch = Report::new();
+        let r = run_sched_once(ctx, s, if starved == 0 { &mut *rep } else { &mut scratch });
+        match r {
+            Err(v) if v.sig.ends_with("/starved") => {
+                starved += 1;
+                rep.class("timeout-while-engine-starved-of-cpu(retried; not a violation)");
+                if starved >= 3 {
+                    rep.infra_errors.push(format!("inconclusive: the engine process was starved of CPU in three attempts ({})", v.detail));
+                    return Ok(());
+                }
+            }
+            other => return other,
+        }
+    }
+}
+
+fn run_sched_once(ctx: &Ctx, s: &Sched, rep: &mut Report) -> Result<(), Violation> {
     let env_val = LABELS.iter().map(|l| format!("{l}={}", if *l == s.window { s.sleep_ms } else { 0 })).collect::<Vec<_>>().join(",");
     let mut eng = match Engine::spawn(&ctx.engine, &[("RCE_VERIF_SCHED".to_string(), env_val)]) {
         Ok(e) => e,
@@ -188,6 +210,7 @@ pub fn run_sched(ctx: &Ctx, s: &Sched, rep: &mut Report) -> Result<(), Violation
         rep.eval(1);
         let pos = Pos::from_fen(&r.fen).unwrap();
         eng.send(&r.position);
+        let cpu_round = eng.cpu_ms();
         eng.send(&r.go);
         order.push("go".into());
         let self_ending = r.go != "go infinite";
@@ -255,7 +278,8 @@ pub fn run_sched(ctx: &Ctx, s: &Sched, rep: &mut Report) -> Result<(), Violation
                         }
                         Some(e) if !e.eof => break,
                         _ => {
-                            return Err(fail("readyok", format!("readyok/missing/{trig_class}"), format!("round {}: isready sent at {} was not answered within 3 s", ri + 1, trig_class), &eng));
+                            let sv = if eng.starved(cpu_round, Duration::from_secs(3)) { "/starved" } else { "" };
+                            return Err(fail("readyok", format!("readyok/missing/{trig_class}{sv}"), format!("round {}: isready sent at {} was not answered within 3 s", ri + 1, trig_class), &eng));
                         }
                     }
                 }
@@ -319,9 +343,11 @@ pub fn run_sched(ctx: &Ctx, s: &Sched, rep: &mut Report) -> Result<(), Violation
                     } else {
                         "no-bestmove"
                     };
+                    // held in a forced window the engine sleeps by design: only the time after the window counts
+                    let sv = if !refused && !panicked && eng.starved(cpu_round, dl) { "/starved" } else { "" };
                     return Err(fail(
                         "one-bestmove",
-                        format!("one-bestmove/{kind}/{trig_class}/{}", r.action),
+                        format!("one-bestmove/{kind}/{trig_class}/{}{sv}", r.action),
                         format!(
                             "round {}: '{}' (trigger {}, action {}, window {}={} ms) got no bestmove within {} ms{}",
                             ri + 1,
